@@ -57,16 +57,38 @@ int main()
     // ---- structures, constraints, options
     int ns = (int)rng.range(1, 3); VectorECov types; for (int k = 0; k < ns; k++) types.push_back(pool[rng.range(0, 6)]);
     Constraints cons; struct C { char kind; EConsElem elem; int icov, iv1, iv2; double bound; }; std::vector<C> mine;
-    int ncons = rng.coin(0.5) ? 0 : (int)rng.range(1, 3);
+    bool authAniso = rng.coin(0.6), authRot = rng.coin(0.6);
+    int ncons = rng.coin(0.5) ? 0 : (int)rng.range(1, 4);
+    // a pair of constraints on the two ranges of one structure (each direction has its own parameter)
+    if (authAniso && ndir >= 2 && rng.coin(0.7))
+    {
+      int icov = (int)rng.range(0, ns - 1);
+      // values chosen so that a bound of one direction applied to the other one would be violated
+      int scheme = (int)rng.range(0, 3);
+      double b0 = 1. + 0.5 * rng.range(0, 6), gap = 1. + 0.5 * rng.range(0, 4);
+      for (int idir = 0; idir < ndim; idir++)
+      {
+        int kind; double b;
+        if (scheme <= 1) { kind = 2; b = (idir == 0) ? b0 : b0 + gap; }                 // two different equalities
+        else if (scheme == 2) { kind = (idir == 0) ? 1 : 0; b = (idir == 0) ? b0 : b0 + gap; }   // U <= b0, V >= b0 + gap
+        else { kind = (idir == 0) ? 0 : 1; b = (idir == 0) ? b0 + gap : b0; }            // U >= b0 + gap, V <= b0
+        EConsType ct = kind == 0 ? EConsType::LOWER : (kind == 1 ? EConsType::UPPER : EConsType::EQUAL);
+        cons.addItemFromParamId(EConsElem::RANGE, icov, idir, 0, ct, b);
+        mine.push_back({kind == 0 ? 'L' : (kind == 1 ? 'U' : 'E'), EConsElem::RANGE, icov, idir, 0, b});
+      }
+      st.hit("range_constraints_on_both_directions");
+    }
     for (int k = 0; k < ncons; k++)
     {
       int icov = (int)rng.range(0, ns - 1); int what = (int)rng.range(0, 2);
-      { bool dup = false; for (auto& c : mine) if (c.icov == icov && ((what == 1) == (c.elem == EConsElem::SILL))) dup = true; if (dup) continue; }   // one constraint per parameter: never contradictory
-      if (what == 0) { double b = 0.5 + 0.5 * rng.range(0, 12); bool up = rng.coin(); cons.addItemFromParamId(EConsElem::RANGE, icov, 0, 0, up ? EConsType::UPPER : EConsType::LOWER, b); mine.push_back({up ? 'U' : 'L', EConsElem::RANGE, icov, 0, 0, b}); }
-      else if (what == 1) { double b = 0.25 * rng.range(1, 20); bool up = rng.coin(); int iv = (int)rng.range(0, nvar - 1); cons.addItemFromParamId(EConsElem::SILL, icov, iv, iv, up ? EConsType::UPPER : EConsType::LOWER, b); mine.push_back({up ? 'U' : 'L', EConsElem::SILL, icov, iv, iv, b}); }
-      else { double b = 0.5 + 0.5 * rng.range(0, 8); cons.addItemFromParamId(EConsElem::RANGE, icov, 0, 0, EConsType::EQUAL, b); mine.push_back({'E', EConsElem::RANGE, icov, 0, 0, b}); }
+      // a range constraint bears on one direction of the anisotropy (iv1): any direction when the anisotropy is inferred
+      int idir = (what != 1 && authAniso && ndir >= 2) ? (int)rng.range(0, ndim - 1) : 0;   // the second range is inferred only from a directional variogram
+      int iv = (what == 1) ? (int)rng.range(0, nvar - 1) : idir;
+      { bool dup = false; for (auto& c : mine) if (c.icov == icov && ((what == 1) == (c.elem == EConsElem::SILL)) && c.iv1 == iv) dup = true; if (dup) continue; }   // one constraint per parameter: never contradictory
+      if (what == 0) { double b = 0.5 + 0.5 * rng.range(0, 12); bool up = rng.coin(); cons.addItemFromParamId(EConsElem::RANGE, icov, idir, 0, up ? EConsType::UPPER : EConsType::LOWER, b); mine.push_back({up ? 'U' : 'L', EConsElem::RANGE, icov, idir, 0, b}); if (idir > 0) st.hit("range_constraint_second_direction"); }
+      else if (what == 1) { double b = 0.25 * rng.range(1, 20); bool up = rng.coin(); cons.addItemFromParamId(EConsElem::SILL, icov, iv, iv, up ? EConsType::UPPER : EConsType::LOWER, b); mine.push_back({up ? 'U' : 'L', EConsElem::SILL, icov, iv, iv, b}); }
+      else { double b = 0.5 + 0.5 * rng.range(0, 8); cons.addItemFromParamId(EConsElem::RANGE, icov, idir, 0, EConsType::EQUAL, b); mine.push_back({'E', EConsElem::RANGE, icov, idir, 0, b}); if (idir > 0) st.hit("range_constraint_second_direction"); }
     }
-    bool authAniso = rng.coin(0.6), authRot = rng.coin(0.6);
     Option_VarioFit optvar(false, authAniso, authRot);
     Model* model = new Model(nvar, ndim);
     int err = model->fit(vario, types, cons, optvar);
@@ -95,7 +117,7 @@ int main()
         {
           const CovAniso* cova = model->getCova(c.icov);
           double v = TEST;
-          if (c.elem == EConsElem::RANGE) { if (cova->hasRange() <= 0) continue; v = cova->getRange(0); }   // iv1 = 0: the range along the first axis
+          if (c.elem == EConsElem::RANGE) { if (cova->hasRange() <= 0) continue; v = cova->getRange(c.iv1); }   // iv1 = direction of the anisotropy
           else v = model->getSill(c.icov, c.iv1, c.iv2);
           consOut += (first ? "" : ";") + std::string(1, c.kind) + "," + dy(v) + "," + dy(c.bound); first = false; st.hit("user_constraints");
         }
@@ -122,6 +144,7 @@ int main()
       double mean = 0., var = 0.; for (double v : Z[0]) mean += v; mean /= nech; for (double v : Z[0]) var += (v - mean) * (v - mean); var /= nech;
       bool zerosill = tot <= 1e-9 * std::max(var, 1e-300) || tot < 1e-12;
       bool bigmatern = false; for (int k = 0; k < model->getCovaNumber(); k++) if (model->getCova(k)->getType() == ECov::MATERN && model->getCova(k)->getParam() > 50.) bigmatern = true;
+      if (getenv("VERIF_DEBUG")) { fprintf(stderr, "cfg aniso=%d rot=%d nvar=%d ns=%d ndirs=%d cons:", (int)authAniso, (int)authRot, nvar, ns, vario->getDirectionNumber()); for (auto& c : mine) fprintf(stderr, " [%c %s cov%d iv1=%d b=%g]", c.kind, c.elem == EConsElem::SILL ? "sill" : "range", c.icov, c.iv1, c.bound); fprintf(stderr, "\n%s\n", model->toString().c_str()); }
       printf("s fit shape%d%s%s %s %s %s =>\n", shape, zerosill ? ":zerosill" : "", bigmatern ? ":bigmatern" : "", vecD(rangesOut).c_str(), consOut.empty() ? "-" : consOut.c_str(), usable.c_str()); st.hit("fitted_models");
       delete back;
     }
